@@ -175,7 +175,7 @@ func flineSpaces(r *Run) []space {
 	for _, p := range []string{"SIP/2.0 ", "SIP/2.0 2", "SIP/2.0 200 ", "sip/2.0 ", "SIP/2.0 200 OK"} {
 		subs = append(subs, prefixedTrie{[]byte(p), byteTrie{[]byte("2A \r\n"), d}})
 	}
-	return []space{{name: "fline/prefixed-bytes", gen: unionTrie{subs}, cfgs: []Cfg{{HdrCap: -1, ValCap: -1}, {Offs: 5, Junk: "crlf", HdrCap: -1, ValCap: -1}}, beyondErr: 2, beyondOk: 2, split: 2}}
+	return []space{{name: "fline/prefixed-bytes", gen: unionTrie{subs}, cfgs: []Cfg{{HdrCap: -1, ValCap: -1}, {Offs: 5, Junk: "crlf", HdrCap: -1, ValCap: -1}, {Offs: 33, Junk: "crlf", HdrCap: -1, ValCap: -1}}, beyondErr: 2, beyondOk: 2, split: 2}}
 }
 
 // header lines used by header-level fragment tries (also C01's menu)
